@@ -471,3 +471,58 @@ func Guarded(text []byte) ([]byte, func() string) {
 		return ""
 	}
 }
+
+// ConcurrentReplay asks n questions first one after the other and then from eight goroutines at once (each goroutine
+// all of them, from a different starting point, four rounds) and reports every answer that differs from the one the
+// sequential pass gave: a function of its arguments gives the same answer whoever else is calling at that moment.
+// fn must be deterministic apart from what the library does and safe to call concurrently as far as the harness's own
+// data goes.
+func (c *Ctx) ConcurrentReplay(sigPrefix string, n int, fn func(i int) string) {
+	if n == 0 {
+		return
+	}
+	want := make([]string, n)
+	for i := range want {
+		want[i] = fn(i)
+	}
+	var wg sync.WaitGroup
+	const g = 8
+	var mu sync.Mutex
+	reported := 0
+	var calls int64
+	for k := 0; k < g; k++ {
+		wg.Add(1)
+		go func(k int) {
+			defer wg.Done()
+			local := int64(0)
+			for round := 0; round < 4; round++ {
+				for j := 0; j < n; j++ {
+					i := (j*7 + k*(n/g+1) + round) % n
+					var got string
+					func() {
+						defer func() {
+							if r := recover(); r != nil {
+								got = fmt.Sprintf("panic: %v", r)
+							}
+						}()
+						got = fn(i)
+					}()
+					local++
+					if got != want[i] {
+						mu.Lock()
+						if reported < 3 {
+							reported++
+							c.Failf(sigPrefix+":concurrent-call-differs", "question %d answered %q on its own and %q while seven other goroutines were calling", i, clip([]byte(want[i])), clip([]byte(got)))
+						}
+						mu.Unlock()
+					}
+				}
+			}
+			mu.Lock()
+			calls += local
+			mu.Unlock()
+		}(k)
+	}
+	wg.Wait()
+	c.CountN("calls_made_concurrently", calls)
+}
